@@ -404,17 +404,22 @@ func resolveUnionBatch(ctx context.Context, sources []interface{}, typ *Union, s
 	var workUnits []*WorkUnit
 	for srcType, sources := range sourcesByType {
 		gqlType := typ.Types[srcType]
+		// Resolve every object exactly once, against everything selected for
+		// its concrete type: the union-level selections (__typename) plus all
+		// fragments on that type. resolveObjectBatch flattens them into one
+		// merged selection, honoring the fragments' directives. An object
+		// whose type has no fragment still resolves to an (empty) object.
+		applicable := &SelectionSet{Selections: selectionSet.Selections}
 		for _, fragment := range selectionSet.Fragments {
-			if fragment.On != srcType {
-				continue
+			if fragment.On == srcType {
+				applicable.Fragments = append(applicable.Fragments, fragment)
 			}
-			units, err := resolveObjectBatch(ctx, sources, gqlType, fragment.SelectionSet, destinationsByType[srcType])
-			if err != nil {
-				return nil, err
-			}
-			workUnits = append(workUnits, units...)
 		}
-
+		units, err := resolveObjectBatch(ctx, sources, gqlType, applicable, destinationsByType[srcType])
+		if err != nil {
+			return nil, err
+		}
+		workUnits = append(workUnits, units...)
 	}
 	return workUnits, nil
 }
